@@ -29,6 +29,7 @@ def main():
     ap.add_argument("--tier", default="quick")
     ap.add_argument("--props", default=None)
     ap.add_argument("--keep-going", action="store_true")
+    ap.add_argument("--note", default="")
     a = ap.parse_args()
     meta = json.load(open(os.path.join(a.src, "meta.json")))
     prop = meta["property"]
@@ -37,7 +38,7 @@ def main():
     os.rmdir(scratch)
     r = sh(f"git -C /repo worktree add --detach {scratch} -q")
     assert r.returncode == 0, r.stderr
-    out = {"property": prop, "what": meta.get("what"), "needs": meta.get("needs"),
+    out = {"property": prop, "note": a.note, "what": meta.get("what"), "needs": meta.get("needs"),
            "agent_tests_run": meta.get("tests_run"), "validated": {}}
     try:
         env = {**os.environ, "PYTHONPATH": scratch}
